@@ -280,7 +280,8 @@ def cif_row(a, rng, chain=None, resseq=None, serial=None):
     ch = a["chain"] if chain is None else chain
     rs = a["resseq"] if resseq is None else resseq
     return {"group_PDB": a["rec"], "id": str(a["serial"] if serial is None else serial), "type_symbol": a["elem"],
-            "label_atom_id": a["name"], "label_alt_id": a["alt"] or na(), "label_comp_id": a["resn"],
+            "label_atom_id": a.get("lname", a["name"]), "label_alt_id": a["alt"] or na(),
+            "label_comp_id": a.get("lresn", a["resn"]),
             "label_asym_id": ch, "label_entity_id": "1", "label_seq_id": str(rs),
             "pdbx_PDB_ins_code": a["icode"] or na(), "Cartn_x": fixed(a["x"], 3), "Cartn_y": fixed(a["y"], 3),
             "Cartn_z": fixed(a["z"], 3), "occupancy": fixed(a["occ"], 2), "B_iso_or_equiv": fixed(a["b"], 2),
